@@ -67,6 +67,7 @@ Definition show_pval (v : pval) : string :=
   | V_types l => "t:" +++ join "," (map dec l)
   | V_sized n s => "z:" +++ dec n +++ ":" +++ hx s
   | V_time now t => "m:" +++ decZ now +++ ":" +++ dec t
+  | V_gw gt alg addr host => "g:" +++ dec gt +++ ":" +++ dec alg +++ ":" +++ hx addr +++ ":" +++ hx host
   end.
 Definition read_pval (s : string) : pval :=
   match s with
@@ -82,6 +83,11 @@ Definition read_pval (s : string) : pval :=
       match split_at colon body with n :: h :: _ => V_sized (undec n) (unhx h) | _ => V_sized 0 [] end
     else if k =? 109 then
       match split_at colon body with n :: t :: _ => V_time (undecZ n) (undec t) | _ => V_time 0%Z 0 end
+    else if k =? 103 then
+      match split_at colon body with
+      | g :: a :: ad :: h :: _ => V_gw (undec g) (undec a) (unhx ad) (unhx h)
+      | _ => V_gw 0 0 [] []
+      end
     else V_types (dec_list body)
   | _ => V_int 0
   end.
